@@ -13,8 +13,10 @@ import (
 	"github.com/flant/shell-operator/pkg/hook/config"
 	. "github.com/flant/shell-operator/pkg/hook/task_metadata"
 	htypes "github.com/flant/shell-operator/pkg/hook/types"
+	kubeeventsmanager "github.com/flant/shell-operator/pkg/kube_events_manager"
 	smtypes "github.com/flant/shell-operator/pkg/schedule_manager/types"
 	"github.com/flant/shell-operator/pkg/task"
+	"github.com/flant/shell-operator/pkg/task/queue"
 	zz "github.com/flant/shell-operator/pkg/zzverif"
 )
 
@@ -99,5 +101,58 @@ func VH_C03_events() {
 			}
 		}
 	}
+	zz.Reach("end")
+}
+
+// VH_C03_queues: every queue a kubernetes or schedule binding names exists and
+// is started exactly once after initAndStartHookQueues, whatever mix of binding
+// kinds the hooks have (a task for a missing queue is dropped by the events
+// handler).
+func VH_C03_queues() {
+	e := vhNewEnv()
+	hook.VSkipInit = true
+	queue.VNoWorkers, queue.VStarted = true, nil
+	names := []string{"main", "q1", "q2"}
+	var used []string
+	mkCfg := func(tag string) *config.HookConfig {
+		cfg := &config.HookConfig{Version: "v1"}
+		if zz.Bool(tag + "_has_schedule") {
+			qn := zz.ConcretizeStr(zz.OneOf(tag+"_schedule_queue", names...))
+			sc := htypes.ScheduleConfig{ScheduleEntry: smtypes.ScheduleEntry{Crontab: "* * * * *", Id: tag + "-s"}, Queue: qn}
+			sc.BindingName = tag + "-sched"
+			cfg.Schedules = append(cfg.Schedules, sc)
+			used = append(used, qn)
+		}
+		nk := zz.Len(tag+"_kube_bindings", 0, 2)
+		for i := 0; i < nk; i++ {
+			qn := zz.ConcretizeStr(zz.OneOf(tag+"_kube_queue"+strconv.Itoa(i), names...))
+			mc := &kubeeventsmanager.MonitorConfig{}
+			mc.Metadata.MonitorId = tag + "-mon" + strconv.Itoa(i)
+			kc := htypes.OnKubernetesEventConfig{Monitor: mc, Queue: qn}
+			kc.BindingName = tag + "-kube" + strconv.Itoa(i)
+			cfg.OnKubernetesEvents = append(cfg.OnKubernetesEvents, kc)
+			used = append(used, qn)
+		}
+		return cfg
+	}
+	e.addHook("hookA", mkCfg("a"))
+	e.addHook("hookB", mkCfg("b"))
+	e.finish()
+	op := e.op
+	op.TaskQueues.NewNamedQueue("main", nil)
+	op.initAndStartHookQueues()
+	for _, qn := range used {
+		zz.Assert(op.TaskQueues.GetByName(qn) != nil, "queue_named_by_a_binding_exists")
+		if qn != "main" {
+			n := 0
+			for _, s := range queue.VStarted {
+				if s == qn {
+					n++
+				}
+			}
+			zz.Assert(n == 1, "queue_named_by_a_binding_is_started_once")
+		}
+	}
+	queue.VNoWorkers = false
 	zz.Reach("end")
 }
